@@ -618,3 +618,509 @@ func dedupV(vs []Violation) []Violation {
 	}
 	return res
 }
+
+// ---------------------------------------------------------------------------------------------
+// C05: reference admission table, literally the statement
+
+func pipeJobs(d *Dump, p string) (running int, waiting []int) {
+	for k := range d.Jobs {
+		j := &d.Jobs[k]
+		if j.Pipeline != p {
+			continue
+		}
+		if j.Running() {
+			running++
+		}
+		if j.Waiting() {
+			waiting = append(waiting, j.Idx)
+		}
+	}
+	sort.Ints(waiting)
+	return
+}
+
+// refAdmission returns the expected outcome class of a schedule request in state d:
+// "start", "noqueue", "replace", "queuefull", "append"
+func refAdmission(d *Dump, p string) (class string, replaced int) {
+	pd := d.Defs.Pipelines[p]
+	running, waiting := pipeJobs(d, p)
+	if running < pd.Concurrency && pd.StartDelay == 0 {
+		return "start", 0
+	}
+	if pd.QueueLimit != nil && *pd.QueueLimit == 0 {
+		return "noqueue", 0
+	}
+	if pd.QueueStrategy == 1 && len(waiting) > 0 {
+		return "replace", waiting[len(waiting)-1]
+	}
+	if pd.QueueLimit != nil && len(waiting) >= *pd.QueueLimit {
+		return "queuefull", 0
+	}
+	return "append", 0
+}
+
+func dumpJobsString(d *Dump) string {
+	var sb strings.Builder
+	for _, j := range d.Jobs {
+		fmt.Fprintf(&sb, "%+v\n", j)
+	}
+	ps := make([]string, 0)
+	for p := range d.WaitLists {
+		ps = append(ps, p)
+	}
+	sort.Strings(ps)
+	for _, p := range ps {
+		if len(d.WaitLists[p]) > 0 {
+			fmt.Fprintf(&sb, "wl %s %v\n", p, d.WaitLists[p])
+		}
+	}
+	return sb.String()
+}
+
+func monC05(f *Facts, pre, post *Dump, ev XEvent, newEvents []Event) []Violation {
+	var vs []Violation
+	// invariant: the number of waiting jobs never exceeds queue_limit (nor 1 under replace)
+	if post != nil && post.Defs != nil && !f.HasReload {
+		for p, pd := range post.Defs.Pipelines {
+			_, waiting := pipeJobs(post, p)
+			if pd.QueueLimit != nil && len(waiting) > *pd.QueueLimit {
+				vs = append(vs, Violation{Property: "C05", Rule: "waiting<=limit", Norm: "waiting-exceeds-queue-limit",
+					Msg: fmt.Sprintf("%d jobs of pipeline %s wait, queue_limit is %d: %s", len(waiting), p, *pd.QueueLimit, post.Short())})
+			}
+			if pd.QueueStrategy == 1 && len(waiting) > 1 {
+				vs = append(vs, Violation{Property: "C05", Rule: "waiting<=1-replace", Norm: "waiting-exceeds-one-under-replace",
+					Msg: fmt.Sprintf("%d jobs of pipeline %s wait under the replace strategy: %s", len(waiting), p, post.Short())})
+			}
+		}
+	}
+	if ev.Kind != "S" && ev.Kind != "Sbad" {
+		return vs
+	}
+	if pre == nil || pre.Defs == nil || pre.ShuttingDown {
+		return vs
+	}
+	if _, ok := pre.Defs.Pipelines[ev.P]; !ok {
+		return vs
+	}
+	var ret *Event
+	for i := range newEvents {
+		if newEvents[i].Kind == EvApiRet {
+			ret = &newEvents[i]
+		}
+	}
+	if ret == nil {
+		return vs
+	}
+	class, replaced := refAdmission(pre, ev.P)
+	got := ret.Err
+	desc := fmt.Sprintf("state before: %s; definition: conc=%d ql=%v strategy=%d delay=%v", pre.Short(), pre.Defs.Pipelines[ev.P].Concurrency, qlStr(pre.Defs.Pipelines[ev.P].QueueLimit), pre.Defs.Pipelines[ev.P].QueueStrategy, pre.Defs.Pipelines[ev.P].StartDelay)
+	switch class {
+	case "noqueue", "queuefull":
+		if got != class {
+			vs = append(vs, Violation{Property: "C05", Rule: "table", Norm: "expected-" + class + "-got-" + orAccepted(got),
+				Msg: fmt.Sprintf("schedule request should be rejected (%s) but the result was %q; %s", class, orAccepted(got), desc)})
+		} else if dumpJobsString(pre) != dumpJobsString(post) {
+			vs = append(vs, Violation{Property: "C05", Rule: "reject-no-trace", Norm: "rejected-request-leaves-trace",
+				Msg: fmt.Sprintf("a rejected schedule request changed the state:\n%s\n->\n%s", dumpJobsString(pre), dumpJobsString(post))})
+		}
+	default:
+		if got != "" {
+			vs = append(vs, Violation{Property: "C05", Rule: "table", Norm: "expected-" + class + "-got-" + got,
+				Msg: fmt.Sprintf("schedule request should be accepted (%s) but was rejected with %q; %s", class, got, desc)})
+			break
+		}
+		nj := post.Job(ret.Job)
+		if nj == nil {
+			vs = append(vs, Violation{Property: "C05", Rule: "table", Norm: "accepted-job-missing", Msg: "accepted job is not in the runner state"})
+			break
+		}
+		if ev.Kind == "Sbad" {
+			break
+		}
+		switch class {
+		case "start":
+			if !nj.Started() {
+				vs = append(vs, Violation{Property: "C05", Rule: "table", Norm: "expected-start-got-queued",
+					Msg: fmt.Sprintf("a slot is free and no delay is configured, but job %d was not started at once: %s; %s", nj.Idx, post.Short(), desc)})
+			}
+		case "append", "replace":
+			if nj.Started() && pre.Defs.Pipelines[ev.P].StartDelay > 0 {
+				vs = append(vs, Violation{Property: "C05", Rule: "table", Norm: "expected-queue-got-start",
+					Msg: fmt.Sprintf("job %d should have been queued (%s) but was started: %s; %s", nj.Idx, class, post.Short(), desc)})
+			} else if nj.Started() {
+				// without delay: started although no slot was free
+				vs = append(vs, Violation{Property: "C05", Rule: "table", Norm: "expected-queue-got-start",
+					Msg: fmt.Sprintf("job %d should have been queued (%s) but was started: %s; %s", nj.Idx, class, post.Short(), desc)})
+			}
+			if class == "replace" {
+				rj := post.Job(replaced)
+				if rj == nil || !rj.Canceled {
+					vs = append(vs, Violation{Property: "C05", Rule: "table", Norm: "replaced-job-not-canceled",
+						Msg: fmt.Sprintf("job %d should replace the most recently queued waiting job %d, which must then be canceled: %s; %s", nj.Idx, replaced, post.Short(), desc)})
+				}
+				// no other waiting job may have been touched
+				_, wpre := pipeJobs(pre, ev.P)
+				for _, wi := range wpre {
+					if wi != replaced {
+						if pj := post.Job(wi); pj == nil || pj.Canceled {
+							vs = append(vs, Violation{Property: "C05", Rule: "table", Norm: "wrong-job-replaced",
+								Msg: fmt.Sprintf("job %d replaced waiting job %d instead of the most recently queued %d: %s", nj.Idx, wi, replaced, post.Short())})
+						}
+					}
+				}
+			} else {
+				_, wpre := pipeJobs(pre, ev.P)
+				for _, wi := range wpre {
+					if pj := post.Job(wi); pj == nil || (pj.Canceled && !pj.Started()) {
+						vs = append(vs, Violation{Property: "C05", Rule: "table", Norm: "append-cancels-waiting-job",
+							Msg: fmt.Sprintf("appending job %d canceled waiting job %d: %s", nj.Idx, wi, post.Short())})
+					}
+				}
+			}
+		}
+	}
+	return dedupV(vs)
+}
+
+func qlStr(q *int) string {
+	if q == nil {
+		return "unset"
+	}
+	return fmt.Sprint(*q)
+}
+
+func orAccepted(s string) string {
+	if s == "" {
+		return "accepted"
+	}
+	return s
+}
+
+// ---------------------------------------------------------------------------------------------
+// C06
+
+func monC06(f *Facts) []Violation {
+	var vs []Violation
+	if f.HasReload {
+		return nil
+	}
+	for _, idx := range f.JobOrder {
+		j := f.Jobs[idx]
+		if j.StartEv < 0 {
+			continue
+		}
+		d := f.Log[j.StartEv].Dump
+		for k := range d.Jobs {
+			o := &d.Jobs[k]
+			if o.Pipeline == j.Pipeline && o.Idx < idx && o.Waiting() {
+				vs = append(vs, Violation{Property: "C06", Rule: "fifo", Norm: "job-starts-before-earlier-waiting-job",
+					Msg: fmt.Sprintf("job %d started (event %d) while job %d, accepted before it, is still waiting: %s", idx, j.StartEv, o.Idx, d.Short())})
+			}
+		}
+	}
+	return dedupV(vs)
+}
+
+// ---------------------------------------------------------------------------------------------
+// C07
+
+func explicitlyCanceled(f *Facts, j *JobFacts) bool {
+	return len(j.CancelApi) > 0 || f.HasShutdown || j.Bad
+}
+
+func monC07(f *Facts, now time.Duration) []Violation {
+	var vs []Violation
+	latest := f.Final
+	if latest == nil {
+		return nil
+	}
+	for k := range latest.Jobs {
+		dj := &latest.Jobs[k]
+		j := f.Jobs[dj.Idx]
+		if dj.Started() && dj.Start < dj.Created+dj.StartDelay {
+			vs = append(vs, Violation{Property: "C07", Rule: "lower-bound", Norm: "job-starts-before-delay",
+				Msg: fmt.Sprintf("job %d accepted at %v with start_delay %v is reported started at %v", dj.Idx, dj.Created, dj.StartDelay, dj.Start)})
+		}
+		for _, r := range j.Runs {
+			if r.EnterVT < dj.Created+dj.StartDelay {
+				vs = append(vs, Violation{Property: "C07", Rule: "lower-bound", Norm: "task-begins-before-delay",
+					Msg: fmt.Sprintf("task %s of job %d (accepted at %v, start_delay %v) begins at %v", r.Task, dj.Idx, dj.Created, dj.StartDelay, r.EnterVT)})
+			}
+		}
+		// a job that never started and was not canceled through the API never runs a task
+		if dj.Canceled && !dj.Started() && len(j.Runs) > 0 {
+			vs = append(vs, Violation{Property: "C07", Rule: "replaced-never-runs", Norm: "replaced-job-runs-task",
+				Msg: fmt.Sprintf("job %d was canceled before it started but ran task %s", dj.Idx, j.Runs[0].Task)})
+		}
+	}
+	if f.HasReload {
+		return dedupV(vs)
+	}
+	// debounce under replace
+	for _, di := range f.Dumps {
+		d := f.Log[di].Dump
+		if d.Defs == nil {
+			continue
+		}
+		for p, pd := range d.Defs.Pipelines {
+			if pd.QueueStrategy != 1 {
+				continue
+			}
+			maxIdx := 0
+			for k := range d.Jobs {
+				if d.Jobs[k].Pipeline == p && d.Jobs[k].Idx > maxIdx {
+					maxIdx = d.Jobs[k].Idx
+				}
+			}
+			for k := range d.Jobs {
+				o := &d.Jobs[k]
+				if o.Pipeline == p && o.Waiting() && o.Idx != maxIdx {
+					vs = append(vs, Violation{Property: "C07", Rule: "debounce-newest", Norm: "older-job-waits-under-replace",
+						Msg: fmt.Sprintf("under replace, job %d is waiting although job %d was accepted after it (event %d): %s", o.Idx, maxIdx, di, d.Short())})
+				}
+				// the newest job may only be canceled by an explicit request
+				if o.Pipeline == p && o.Idx == maxIdx && o.Canceled && !o.Started() && !explicitlyCanceled(f, f.Jobs[o.Idx]) {
+					vs = append(vs, Violation{Property: "C07", Rule: "debounce-newest", Norm: "newest-job-displaced",
+						Msg: fmt.Sprintf("under replace, the most recently accepted job %d was canceled without a cancel request (event %d): %s", o.Idx, di, d.Short())})
+				}
+			}
+		}
+	}
+	return dedupV(vs)
+}
+
+func monC07Drained(f *Facts, final *Dump) []Violation {
+	var vs []Violation
+	if f.HasReload || final.Defs == nil {
+		return nil
+	}
+	for p := range final.Defs.Pipelines {
+		maxIdx := 0
+		for k := range final.Jobs {
+			if final.Jobs[k].Pipeline == p && final.Jobs[k].Idx > maxIdx {
+				maxIdx = final.Jobs[k].Idx
+			}
+		}
+		if maxIdx == 0 {
+			continue
+		}
+		j := f.Jobs[maxIdx]
+		if len(j.Runs) == 0 && !explicitlyCanceled(f, j) {
+			vs = append(vs, Violation{Property: "C07", Rule: "newest-eventually-runs", Norm: "newest-job-never-runs",
+				Msg: fmt.Sprintf("the most recently accepted job %d of pipeline %s never ran although all tasks finished and all timers fired: %s", maxIdx, p, final.Short())})
+		}
+	}
+	return vs
+}
+
+// monPrompt: at a quiescent state nothing more happens without a new external event, so a job
+// that is eligible to start there has missed every bound.
+func monPrompt(f *Facts, post *Dump, now time.Duration, c03, c07 bool) []Violation {
+	var vs []Violation
+	if f.HasReload || post == nil || post.Defs == nil || post.ShuttingDown {
+		return nil
+	}
+	for p, pd := range post.Defs.Pipelines {
+		running, waiting := pipeJobs(post, p)
+		if running >= pd.Concurrency || len(waiting) == 0 {
+			continue
+		}
+		o := post.Job(waiting[0])
+		if now >= o.Created+o.StartDelay+time.Millisecond {
+			msg := fmt.Sprintf("pipeline %s has a free slot (%d of %d executing) and its longest-waiting job %d (accepted at %v, start_delay %v) has waited long enough at %v, but it is not started and nothing is pending that would start it: %s", p, running, pd.Concurrency, o.Idx, o.Created, o.StartDelay, now, post.Short())
+			if c03 {
+				vs = append(vs, Violation{Property: "C03", Rule: "prompt", Norm: "eligible-job-not-started", Msg: msg})
+			}
+			if c07 && o.StartDelay > 0 {
+				vs = append(vs, Violation{Property: "C07", Rule: "prompt", Norm: "eligible-delayed-job-not-started", Msg: msg})
+			}
+		}
+	}
+	return vs
+}
+
+// monStranded: after the drain every accepted job of a defined pipeline has started or is canceled
+func monStranded(f *Facts, final *Dump, prop string) []Violation {
+	var vs []Violation
+	if final.Defs == nil {
+		return nil
+	}
+	if prop == "C16" && !f.HasReload {
+		return nil
+	}
+	for k := range final.Jobs {
+		j := &final.Jobs[k]
+		if _, ok := final.Defs.Pipelines[j.Pipeline]; !ok {
+			continue
+		}
+		if j.Waiting() {
+			vs = append(vs, Violation{Property: prop, Rule: "stranded", Norm: "job-waits-forever",
+				Msg: fmt.Sprintf("job %d is still waiting after every task has finished and every timer has fired: %s", j.Idx, final.Short())})
+		}
+		if j.Running() {
+			vs = append(vs, Violation{Property: prop, Rule: "stranded", Norm: "job-runs-forever",
+				Msg: fmt.Sprintf("job %d is still reported running after every task has finished: %s", j.Idx, final.Short())})
+		}
+	}
+	return vs
+}
+
+// ---------------------------------------------------------------------------------------------
+// C15 (flags of the pipeline listing)
+
+func monC15(f *Facts, pre, post *Dump, ev XEvent, newEvents []Event, listed interface{}) []Violation {
+	var vs []Violation
+	infos, _ := listed.([]prunnerPipelineInfo)
+	if pre == nil || pre.ShuttingDown {
+		return nil
+	}
+	for _, pi := range infos {
+		running, _ := pipeJobs(pre, pi.Pipeline)
+		if pi.Running != (running > 0) {
+			vs = append(vs, Violation{Property: "C15", Rule: "running-flag", Norm: "running-flag-wrong",
+				Msg: fmt.Sprintf("pipeline %s is listed with running=%v but %d of its jobs execute: %s", pi.Pipeline, pi.Running, running, pre.Short())})
+		}
+		if ev.Kind == "S" && ev.P == pi.Pipeline {
+			var ret *Event
+			for i := range newEvents {
+				if newEvents[i].Kind == EvApiRet {
+					ret = &newEvents[i]
+				}
+			}
+			if ret != nil && pi.Schedulable != (ret.Err == "") {
+				vs = append(vs, Violation{Property: "C15", Rule: "schedulable-flag", Norm: fmt.Sprintf("schedulable-%v-but-request-%s", pi.Schedulable, orAccepted(ret.Err)),
+					Msg: fmt.Sprintf("pipeline %s is listed with schedulable=%v but an immediate schedule request returns %q: %s", pi.Pipeline, pi.Schedulable, orAccepted(ret.Err), pre.Short())})
+			}
+		}
+	}
+	// timestamps
+	if post != nil {
+		for k := range post.Jobs {
+			j := &post.Jobs[k]
+			if j.Started() && j.Start < j.Created {
+				vs = append(vs, Violation{Property: "C15", Rule: "timestamps", Norm: "start-before-created", Msg: fmt.Sprintf("job %d: start %v < created %v", j.Idx, j.Start, j.Created)})
+			}
+			if j.End >= 0 && j.Started() && j.End < j.Start {
+				vs = append(vs, Violation{Property: "C15", Rule: "timestamps", Norm: "end-before-start", Msg: fmt.Sprintf("job %d: end %v < start %v", j.Idx, j.End, j.Start)})
+			}
+			if j.End >= 0 && j.End < j.Created {
+				vs = append(vs, Violation{Property: "C15", Rule: "timestamps", Norm: "end-before-created", Msg: fmt.Sprintf("job %d: end %v < created %v", j.Idx, j.End, j.Created)})
+			}
+		}
+	}
+	return dedupV(vs)
+}
+
+// ---------------------------------------------------------------------------------------------
+// C16
+
+func monC16(w *World, f *Facts) []Violation {
+	var vs []Violation
+	for _, idx := range f.JobOrder {
+		j := f.Jobs[idx]
+		if j.AcceptEv < 0 {
+			continue
+		}
+		d := f.dumpBefore(j.AcceptEv + 1)
+		// the definition in force when the request returned: the dump that ends the accepting critical section
+		if d == nil || d.Defs == nil || d.Job(idx) == nil {
+			continue
+		}
+		pd, ok := d.Defs.Pipelines[j.Pipeline]
+		if !ok {
+			continue
+		}
+		var fj *DJob
+		if f.Final != nil {
+			fj = f.Final.Job(idx)
+		}
+		if fj == nil {
+			continue
+		}
+		if fj.StartDelay != pd.StartDelay {
+			vs = append(vs, Violation{Property: "C16", Rule: "snapshot-delay", Norm: "job-delay-not-from-accept-time-definition",
+				Msg: fmt.Sprintf("job %d carries start_delay %v, the definition at accept time says %v", idx, fj.StartDelay, pd.StartDelay)})
+		}
+		// task set, dependencies in the reported job
+		names := map[string]bool{}
+		for _, t := range fj.Tasks {
+			names[t.Name] = true
+			td, ok := pd.Tasks[t.Name]
+			if !ok {
+				vs = append(vs, Violation{Property: "C16", Rule: "snapshot-tasks", Norm: "job-has-task-not-in-accept-time-definition",
+					Msg: fmt.Sprintf("job %d has task %s which the definition at accept time does not have", idx, t.Name)})
+				continue
+			}
+			if strings.Join(t.Deps, ",") != strings.Join(td.DependsOn, ",") || strings.Join(t.Script, "\x00") != strings.Join(td.Script, "\x00") || t.Allow != td.AllowFailure {
+				vs = append(vs, Violation{Property: "C16", Rule: "snapshot-tasks", Norm: "job-task-differs-from-accept-time-definition",
+					Msg: fmt.Sprintf("task %s of job %d: deps=%v script=%v allow=%v, definition at accept time: deps=%v script=%v allow=%v", t.Name, idx, t.Deps, t.Script, t.Allow, td.DependsOn, td.Script, td.AllowFailure)})
+			}
+		}
+		for n := range pd.Tasks {
+			if !names[n] {
+				vs = append(vs, Violation{Property: "C16", Rule: "snapshot-tasks", Norm: "job-lacks-task-of-accept-time-definition",
+					Msg: fmt.Sprintf("job %d lacks task %s of the definition at accept time", idx, n)})
+			}
+		}
+		// what the runner actually received
+		for _, m := range w.Mocks {
+			if m.job != idx {
+				continue
+			}
+			if fmt.Sprint(sortedMap(m.env)) != fmt.Sprint(sortedMap(pd.Env)) {
+				vs = append(vs, Violation{Property: "C16", Rule: "snapshot-env", Norm: "runner-env-not-from-accept-time-definition",
+					Msg: fmt.Sprintf("the task runner of job %d was created with env %v, the definition at accept time says %v", idx, m.env, pd.Env)})
+			}
+			for _, st := range m.seenTasks {
+				td, ok := pd.Tasks[st.Name]
+				if !ok {
+					vs = append(vs, Violation{Property: "C16", Rule: "snapshot-run", Norm: "runner-runs-task-not-in-accept-time-definition",
+						Msg: fmt.Sprintf("job %d runs task %s which the definition at accept time does not have", idx, st.Name)})
+					continue
+				}
+				envs := map[string]string{}
+				for k, v := range st.Env {
+					envs[k] = fmt.Sprint(v)
+				}
+				if strings.Join(st.Commands, "\x00") != strings.Join(td.Script, "\x00") || st.Allow != td.AllowFailure || fmt.Sprint(sortedMap(envs)) != fmt.Sprint(sortedMap(td.Env)) {
+					vs = append(vs, Violation{Property: "C16", Rule: "snapshot-run", Norm: "runner-task-differs-from-accept-time-definition",
+						Msg: fmt.Sprintf("job %d runs task %s with commands %v env %v allow=%v; definition at accept time: %v %v %v", idx, st.Name, st.Commands, envs, st.Allow, td.Script, td.Env, td.AllowFailure)})
+				}
+			}
+		}
+	}
+	// reload itself changes no job
+	for i, e := range f.Log {
+		if e.Kind != EvApiRet || !strings.HasPrefix(e.Detail, "R(") {
+			continue
+		}
+		var own = -1
+		for k := i - 1; k >= 0; k-- {
+			if f.Log[k].Kind == EvUnlock && f.Log[k].Thread == e.Thread {
+				own = k
+				break
+			}
+			if f.Log[k].Kind == EvApiCall && f.Log[k].Thread == e.Thread {
+				break
+			}
+		}
+		if own < 0 {
+			continue
+		}
+		b, a := f.dumpBefore(own), f.Log[own].Dump
+		if b != nil && dumpJobsString(b) != dumpJobsString(a) {
+			vs = append(vs, Violation{Property: "C16", Rule: "reload-touches-no-job", Norm: "reload-changes-job",
+				Msg: fmt.Sprintf("ReplaceDefinitions changed job state:\n%s->\n%s", dumpJobsString(b), dumpJobsString(a))})
+		}
+	}
+	return dedupV(vs)
+}
+
+func sortedMap(m map[string]string) []string {
+	var res []string
+	for k, v := range m {
+		res = append(res, k+"="+v)
+	}
+	sort.Strings(res)
+	return res
+}
